@@ -137,6 +137,9 @@ def binop(ex, state, op, a, b, inplace=False):
                 andc = bit_and_const(x, yv)
             elif yv is not None:
                 raise Unsupported("bit op with negative constant")
+            elif isinstance(op, ast.BitOr) and _disjoint_or(ex, state, x, y) is not None:
+                # (t << k) | u with 0 <= u < 2**k: the operands share no bit, so the result is their sum
+                return VInt(_disjoint_or(ex, state, x, y))
             else:
                 # both operands symbolic: octet-wide bit operation as an application of the defined function
                 # bxor8/band8/bor8 (natives); operands must be octets (obligation), result is an octet
@@ -206,6 +209,34 @@ def binop(ex, state, op, a, b, inplace=False):
     if "none" in (ka, kb) or {ka, kb} in ({"str", "int"}, {"bytes", "int"}, {"str", "bytes"}):
         ex.raise_if(state, z3.BoolVal(True), "TypeError")
     raise Unsupported("binop %s on %s,%s" % (type(op).__name__, ka, kb))
+
+
+def _pow2_multiple(t, depth=0):
+    """largest c = 2**k (k <= 62) that syntactically divides the linear term t (1 if none)"""
+    if z3.is_int_value(t):
+        v = abs(t.as_long())
+        return (v & -v) if v else (1 << 62)
+    if depth > 8 or not z3.is_app(t):
+        return 1
+    k = t.decl().kind()
+    if k == z3.Z3_OP_MUL:
+        c = 1
+        for ch in t.children():
+            c = min(c * _pow2_multiple(ch, depth + 1), 1 << 62)
+        return c
+    if k in (z3.Z3_OP_ADD, z3.Z3_OP_SUB):
+        return min(_pow2_multiple(ch, depth + 1) for ch in t.children())
+    if k == z3.Z3_OP_UMINUS:
+        return _pow2_multiple(t.arg(0), depth + 1)
+    return 1
+
+
+def _disjoint_or(ex, state, x, y):
+    for p, q in ((x, y), (y, x)):
+        c = _pow2_multiple(p)
+        if c > 1 and ex.prove_quick(state, z3.And(p >= 0, q >= 0, q < c), timeout_ms=2000):
+            return p + q
+    return None
 
 
 _pow2 = z3.Function("pow2", z3.IntSort(), z3.IntSort())
@@ -285,17 +316,11 @@ def order(ex, state, op, a, b):
 
 def contains(ex, state, container, x):
     """z3 Bool for `x in container`."""
-    res = []
-    for g, c in alts_of(container):
-        n = len(state.pc)
-        state.pc.append(g)
-        try:
-            r = contains_atom(ex, state, c, x)
-        finally:
-            new = state.pc[n + 1:]
-            state.pc = state.pc[:n] + [z3.Implies(g, e) for e in new]
-        res.append(z3.And(g, r))
-    return simp(disj(res))
+    if isinstance(container, VUnion):
+        # alternatives that cannot be searched (None ...) raise TypeError under their guard only
+        r = ex.dist(state, [container], lambda c: VBool(contains_atom(ex, state, c, x)))
+        return simp(ex.truthy(state, r))
+    return simp(contains_atom(ex, state, container, x))
 
 
 def contains_atom(ex, state, c, x):
